@@ -315,6 +315,7 @@ def rule_G(ck, lib):
     want = {"Hexadecimal": (frozenset(b"Hh"), HEX), "Binary": (frozenset(b"Bb"), frozenset(b"01")), "Octal": (frozenset(b"Qq"), frozenset(b"01234567"))}
     alnum = frozenset(b"0123456789abcdefghijklmnopqrstuvwxyzABCDEFGHIJKLMNOPQRSTUVWXYZ")
     found = set()
+    dec_done = set()
     for path, f in sorted(sk.fns.items()):
         if f["kind"] != "direct":
             continue
@@ -349,8 +350,40 @@ def rule_G(ck, lib):
                 found.add(kind)
                 ok = span_of(v[2][0], f["inp"], rem)
                 ck.judge(ok, "C03-G", "%s:span" % name, "Decimal text = exactly the consumed span", "Value::Decimal carries %s, not the consumed span" % show_term(v[2][0]))
-                names = [pid_name(a[0]) for a in apps]
-                ck.judge(names == ["mantissa", "optional(exponent)"], "C03-G", "%s:shape" % name, "mantissa exponent?", "decimal recogniser shape is %s" % names)
+                # the decimal grammar, as the language of consumed token sequences (sub-parsers expanded, whatever their names)
+                if name not in dec_done:
+                    dec_done.add(name)
+                    got = sk.language(("fn", path))
+                    D = frozenset(range(48, 58))
+                    S_, DOT, E_ = ("one", frozenset([43, 45])), ("one", frozenset([46])), ("one", frozenset([69, 101]))
+                    DIGS = (("one", D), ("many", D))
+                    mant = set()
+                    for sg in ((), (S_,)):
+                        mant |= {sg + DIGS, sg + DIGS + (DOT,), sg + DIGS + (DOT,) + DIGS, sg + (DOT,) + DIGS}
+                    expo = {(E_,) + sg + DIGS for sg in ((), (S_,))}
+                    spec = {m + e for m in mant for e in ({()} | expo)}
+
+                    def shw(q):
+                        return " ".join(("%s%s" % (bytecls.show_set(t[1]), "*" if t[0] == "many" else "")) for t in q) or "(nothing)"
+                    def expand(lang):
+                        """a one-byte token over a small class is the alternation of its bytes (`sign` may be written as
+                        one class or as two tags)"""
+                        out = set()
+                        for q in lang:
+                            alts = [()]
+                            for t in q:
+                                if t[0] == "one" and len(t[1]) <= 4:
+                                    alts = [a + (("one", frozenset([b])),) for a in alts for b in sorted(t[1])]
+                                else:
+                                    alts = [a + (t,) for a in alts]
+                            out.update(alts)
+                        return out
+                    spec = expand(spec)
+                    got = expand(got) if got is not None else None
+                    ok = got is not None and got == spec
+                    ck.judge(ok, "C03-G", "%s:grammar" % name, "consumes exactly sign? (digits ('.' digits?)? | '.' digits) ([Ee] sign? digits)?  (%d token sequences)" % len(spec),
+                             "decimal recogniser consumes a different language: %s" % ("not computable (loop / data-driven slice / unknown parser on an accepting path)" if got is None else
+                                                                                       "extra %s; missing %s" % ([shw(q) for q in sorted(got - spec, key=str)][:3], [shw(q) for q in sorted(spec - got, key=str)][:3])))
             elif kind == "Characters":
                 found.add(kind)
                 taken = None
